@@ -41,9 +41,10 @@ type PSpec struct {
 	ProbeFail     int          `json:"probe_fail,omitempty"`  // failure_threshold
 	ProbeDelay    int          `json:"probe_delay,omitempty"` // initial_delay_seconds
 	Liveness      bool         `json:"liveness,omitempty"`
-	LiveFail      int          `json:"live_fail,omitempty"` // liveness failure_threshold
-	ProbeSeq      []int        `json:"probe_seq,omitempty"` // scripted probe outcomes (1 ok, 0 fail), then the switch value
-	StopCmd       string       `json:"stop_cmd,omitempty"`  // shutdown.command
+	LiveFail      int          `json:"live_fail,omitempty"`  // liveness failure_threshold
+	ProbeSeq      []int        `json:"probe_seq,omitempty"`  // scripted probe outcomes (1 ok, 0 fail), then the switch value
+	ProbeExec     string       `json:"probe_exec,omitempty"` // readiness (or, for daemons with Liveness, liveness) probe is this shell command instead of http
+	StopCmd       string       `json:"stop_cmd,omitempty"`   // shutdown.command
 	Disabled      bool         `json:"disabled,omitempty"`
 	Daemon        bool         `json:"daemon,omitempty"`
 	StopTimeout   int          `json:"stop_timeout,omitempty"`
@@ -215,7 +216,17 @@ func BuildYAML(s *LifeSpec, worldID int, probePort int) string {
 				b.WriteString("      command: 'true'\n")
 			}
 		}
-		if p.Probe {
+		if p.ProbeExec != "" {
+			ft := p.ProbeFail
+			if ft == 0 {
+				ft = 3
+			}
+			kind := "readiness_probe"
+			if p.Liveness {
+				kind = "liveness_probe"
+			}
+			fmt.Fprintf(&b, "    %s:\n      exec:\n        command: %s\n      period_seconds: 1\n      timeout_seconds: 1\n      failure_threshold: %d\n", kind, yq(p.ProbeExec), ft)
+		} else if p.Probe {
 			ft := p.ProbeFail
 			if ft == 0 {
 				ft = 3
@@ -225,7 +236,7 @@ func BuildYAML(s *LifeSpec, worldID int, probePort int) string {
 				fmt.Fprintf(&b, "      initial_delay_seconds: %d\n", p.ProbeDelay)
 			}
 		}
-		if p.Liveness {
+		if p.Liveness && p.ProbeExec == "" {
 			lf := p.LiveFail
 			if lf == 0 {
 				lf = 3
@@ -519,6 +530,12 @@ func runOps(lr *LifeRun, env *sim.Env, ps *probeServer, spec *LifeSpec) {
 			parts := strings.Split(op.When, ":")
 			st := parts[2]
 			ok = waitTrig(w, 10*time.Second, func(v *sim.WorldView) bool { return v.Has(sim.EvState, a, st) })
+		case "health":
+			parts := strings.Split(op.When, ":")
+			st := strings.Join(parts[2:], ":")
+			ok = waitTrig(w, 10*time.Second, func(v *sim.WorldView) bool { return v.Has(sim.EvHealth, a, st) })
+		case "signal":
+			ok = waitTrig(w, 12*time.Second, func(v *sim.WorldView) bool { return v.Count(sim.EvSignal, a) >= 1 })
 		case "after":
 			var idx int
 			fmt.Sscanf(a, "%d", &idx)
